@@ -95,6 +95,7 @@ package config
 //@ pred AllWf(cs []*net.IPNet) := forall i int :: 0 <= i && i < len(cs) ==> WfCIDR(cs[i])
 //@ func addressPoolFromCR
 //@   ensures [pool] result1 == nil ==> result0 != nil && fresh(result0) && result0.Name == p.Name && p.Name != "" && len(result0.CIDR) >= 1 && AllWf(result0.CIDR)
+//@   ensures [noAdvs] result1 == nil ==> result0.L2Advertisements == nil && result0.BGPAdvertisements == nil
 //@   ensures result1 != nil ==> result0 == nil
 //@   modifies fresh *Pool, fresh []*net.IPNet, fresh *net.IPNet, fresh []string, fresh []interface{}, fresh map[string][]*net.IPNet, fresh *ServiceAllocation, fresh map[string]sets.Empty, fresh []labels.Selector
 //@   loop 1 binds cidr
@@ -104,15 +105,45 @@ package config
 //@ func communitiesFromCrs
 //@   trusted
 //@   modifies fresh map[string]community.BGPCommunity, fresh []interface{}
-//@ func setL2AdvertisementsToPools
+// containsAdvertisement compares advertisements (reflect.DeepEqual, string sets): read-only (assumed)
+//@ func containsAdvertisement
 //@   trusted
-//@   modifies Pool.L2Advertisements, fresh *L2Advertisement, fresh []*L2Advertisement, fresh map[string]bool, fresh []string, fresh []interface{}
+//@   modifies nothing
+// (their frames are what poolsFor relies on; the bodies are checked in abstracted mode below: every attachment happens
+// for a reason of the statement)
+//@ func setL2AdvertisementsToPools
+//@   abstract
+//@   requires [noAdvsYet] forall n string :: (n in ipPoolMap) ==> ipPoolMap[n] != nil && ipPoolMap[n].L2Advertisements == nil
+//@   loop 1 binds l2Adv
+//@   loop 1 invariant forall n string :: (n in ipPoolMap) ==> ipPoolMap[n] != nil && (ipPoolMap[n].L2Advertisements == nil || fresh(ipPoolMap[n].L2Advertisements))
+//@   loop 2 binds pool
+//@   loop 2 invariant forall n string :: (n in ipPoolMap) ==> ipPoolMap[n] != nil && (ipPoolMap[n].L2Advertisements == nil || fresh(ipPoolMap[n].L2Advertisements))
+//@   loop 3 binds poolName
+//@   loop 3 invariant forall n string :: (n in ipPoolMap) ==> ipPoolMap[n] != nil && (ipPoolMap[n].L2Advertisements == nil || fresh(ipPoolMap[n].L2Advertisements))
+//@   assert before append#1: [whyAll] len(l2Adv.Spec.IPAddressPools) == 0 && len(l2Adv.Spec.IPAddressPoolSelectors) == 0
+//@   assert before append#1: [theAdv] NodeSet(adv.Nodes, nodes, l2Adv.Spec.NodeSelectors)
+//@   assert before append#3: [whyNamedOrSelected] (exists j int :: 0 <= j && j < len(l2Adv.Spec.IPAddressPools) && l2Adv.Spec.IPAddressPools[j] == poolName) || (exists k int :: 0 <= k && k < len(ipPools) && ipPools[k].Name == poolName && SelBy(l2Adv.Spec.IPAddressPoolSelectors, ipPools[k].Labels))
+//@   assert before append#3: [thePool] (poolName in ipPoolMap) && pool == ipPoolMap[poolName]
+//@   assert before append#3: [theAdv2] NodeSet(adv.Nodes, nodes, l2Adv.Spec.NodeSelectors)
+//@   modifies []string, Pool.L2Advertisements, fresh *L2Advertisement, fresh []*L2Advertisement, fresh map[string]bool, fresh []string, fresh []interface{}
 //@ func validateDuplicateBGPAdvertisements
 //@   trusted
 //@   modifies nothing
 //@ func setBGPAdvertisementsToPools
-//@   trusted
-//@   modifies Pool.BGPAdvertisements, fresh *BGPAdvertisement, fresh []*BGPAdvertisement, fresh map[string]bool, fresh map[community.BGPCommunity]bool, fresh []string, fresh []interface{}
+//@   abstract
+//@   requires [noAdvsYet] forall n string :: (n in ipPoolMap) ==> ipPoolMap[n] != nil && ipPoolMap[n].BGPAdvertisements == nil
+//@   loop 1 binds bgpAdv
+//@   loop 1 invariant forall n string :: (n in ipPoolMap) ==> ipPoolMap[n] != nil && (ipPoolMap[n].BGPAdvertisements == nil || fresh(ipPoolMap[n].BGPAdvertisements))
+//@   loop 2 binds pool
+//@   loop 2 invariant forall n string :: (n in ipPoolMap) ==> ipPoolMap[n] != nil && (ipPoolMap[n].BGPAdvertisements == nil || fresh(ipPoolMap[n].BGPAdvertisements))
+//@   loop 3 binds poolName
+//@   loop 3 invariant forall n string :: (n in ipPoolMap) ==> ipPoolMap[n] != nil && (ipPoolMap[n].BGPAdvertisements == nil || fresh(ipPoolMap[n].BGPAdvertisements))
+//@   assert before append#1: [whyAll] len(bgpAdv.Spec.IPAddressPools) == 0 && len(bgpAdv.Spec.IPAddressPoolSelectors) == 0
+//@   assert before append#1: [theAdv] NodeSet(adv.Nodes, nodes, bgpAdv.Spec.NodeSelectors) && adv.LocalPref == bgpAdv.Spec.LocalPref
+//@   assert before append#3: [whyNamedOrSelected] (exists j int :: 0 <= j && j < len(bgpAdv.Spec.IPAddressPools) && bgpAdv.Spec.IPAddressPools[j] == poolName) || (exists k int :: 0 <= k && k < len(ipPools) && ipPools[k].Name == poolName && SelBy(bgpAdv.Spec.IPAddressPoolSelectors, ipPools[k].Labels))
+//@   assert before append#3: [thePool] (poolName in ipPoolMap) && pool == ipPoolMap[poolName]
+//@   assert before append#3: [theAdv2] NodeSet(adv.Nodes, nodes, bgpAdv.Spec.NodeSelectors) && adv.LocalPref == bgpAdv.Spec.LocalPref
+//@   modifies []string, Pool.BGPAdvertisements, fresh *BGPAdvertisement, fresh []*BGPAdvertisement, fresh map[string]bool, fresh map[community.BGPCommunity]bool, fresh []string, fresh []interface{}
 
 // Disjoint: different networks of the list share no address (pairwise non-overlap), all canonical.
 //@ pred Disjoint(cs []*net.IPNet) := AllWf(cs) && (forall a int, b int :: 0 <= a && a < b && b < len(cs) ==> !Overlap(cs[a], cs[b]))
@@ -139,6 +170,8 @@ package config
 //@   loop 1 invariant forall n string :: (n in pools) ==> len(pools[n].CIDR) >= 1 && AllWf(pools[n].CIDR) && fresh(pools[n])
 //@   loop 2 invariant pools != nil && fresh(pools) && PoolsKeyed(pools) && (allCIDRs == nil || fresh(allCIDRs)) && Disjoint(allCIDRs) && Listed(pools, allCIDRs)
 //@   loop 2 invariant forall n string :: (n in pools) ==> len(pools[n].CIDR) >= 1 && AllWf(pools[n].CIDR) && fresh(pools[n])
+//@   loop 1 invariant [noAdvs] forall n string :: (n in pools) ==> pools[n].L2Advertisements == nil && pools[n].BGPAdvertisements == nil
+//@   loop 2 invariant [noAdvs] forall n string :: (n in pools) ==> pools[n].L2Advertisements == nil && pools[n].BGPAdvertisements == nil
 //@   loop 2 invariant pool != nil && fresh(pool) && pool.Name == p.Name && p.Name != "" && len(pool.CIDR) >= 1 && AllWf(pool.CIDR) && !(p.Name in pools)
 //@   loop 2 invariant forall i int :: 0 <= i && i < iter ==> (pool.CIDR[i] in allCIDRs)
 //@   loop 3 binds m
